@@ -2,9 +2,209 @@
    AS TRANSLATED from /repo's working tree by vcheck/py2coq.py (Gen/G_cluster_label_assignment.v, regenerated on every
    run) equals the hand-written model Model/Viterbi.v, for every carrier, every table and every switching cost.
    Closed under the global context. *)
-From Coq Require Import String ZArith List Bool Lia Arith.
+From Coq Require Import String ZArith List Bool Lia Arith NArith.
 From Ticc Require Import Gen.PyRt Gen.G_cluster_label_assignment Model.Viterbi.
+From Ticc Require Import Proofs.ViterbiShape.
 Import ListNotations.
+
+(* ------------------------------------------------------------------ *)
+(* generic list / run-time facts                                       *)
+(* ------------------------------------------------------------------ *)
+
+Lemma la_getitem_nat {A : Type} (l : list A) (k : nat) (d : A) : (k < length l)%nat ->
+  py_getitem l (Z.of_nat k) = Ret (nth k l d).
+Proof.
+  intros Hk. unfold py_getitem, py_len.
+  replace (Z.of_nat k <? 0)%Z with false by lia.
+  replace ((Z.of_nat k <? 0)%Z || (Z.of_nat (length l) <=? Z.of_nat k)%Z) with false by lia.
+  rewrite Nat2Z.id, (nth_error_nth' l d Hk). reflexivity.
+Qed.
+
+Lemma la_getitem_mid {A : Type} (pre post : list A) (x : A) :
+  py_getitem (pre ++ x :: post) (Z.of_nat (length pre)) = Ret x.
+Proof.
+  rewrite (la_getitem_nat _ _ x) by (rewrite app_length; cbn [length]; lia).
+  rewrite nth_middle. reflexivity.
+Qed.
+
+Lemma la_set_index_nat {A : Type} (l : list A) (k : nat) (v : A) : (k < length l)%nat ->
+  py_set_index l (Z.of_nat k) v = Ret (set_nth k v l).
+Proof.
+  intros Hk. unfold py_set_index, py_len.
+  replace (Z.of_nat k <? 0)%Z with false by lia.
+  replace ((Z.of_nat k <? 0)%Z || (Z.of_nat (length l) <=? Z.of_nat k)%Z) with false by lia.
+  rewrite Nat2Z.id. reflexivity.
+Qed.
+
+Lemma la_set_nth_length {A : Type} (k : nat) (v : A) (l : list A) : length (set_nth k v l) = length l.
+Proof.
+  revert k. induction l as [|x l IH]; intros k; [destruct k; reflexivity|].
+  destruct k as [|k]; cbn [set_nth length]; [reflexivity|]. rewrite IH. reflexivity.
+Qed.
+
+Lemma la_nth_set_nth_same {A : Type} (k : nat) (v d : A) (l : list A) : (k < length l)%nat ->
+  nth k (set_nth k v l) d = v.
+Proof.
+  revert k. induction l as [|x l IH]; intros k Hk; cbn [length] in Hk; [lia|].
+  destruct k as [|k]; cbn [set_nth nth]; [reflexivity|]. apply IH. lia.
+Qed.
+
+Lemma la_set_nth_twice {A : Type} (k : nat) (v w : A) (l : list A) :
+  set_nth k w (set_nth k v l) = set_nth k w l.
+Proof.
+  revert k. induction l as [|x l IH]; intros k; [destruct k; reflexivity|].
+  destruct k as [|k]; cbn [set_nth]; [reflexivity|]. rewrite IH. reflexivity.
+Qed.
+
+Lemma la_set_nth_self {A : Type} (k : nat) (d : A) (l : list A) : set_nth k (nth k l d) l = l.
+Proof.
+  revert k. induction l as [|x l IH]; intros k; [destruct k; reflexivity|].
+  destruct k as [|k]; cbn [set_nth nth]; [reflexivity|]. rewrite IH. reflexivity.
+Qed.
+
+Lemma la_set_nth_mid {A : Type} (pre post : list A) (x y : A) :
+  set_nth (length pre) y (pre ++ x :: post) = pre ++ y :: post.
+Proof. induction pre as [|p pre IH]; cbn [length app set_nth]; [reflexivity|]. rewrite IH. reflexivity. Qed.
+
+Lemma la_skipn_cons {A : Type} (l : list A) : forall (n : nat) (d : A), (n < length l)%nat ->
+  skipn n l = nth n l d :: skipn (S n) l.
+Proof.
+  induction l as [|x l IH]; intros n d Hn; cbn [length] in Hn; [lia|].
+  destruct n as [|n]; [reflexivity|]. cbn [skipn nth]. rewrite (IH n d) by lia. reflexivity.
+Qed.
+
+Lemma la_set_nth_fill {A : Type} (n : nat) (v : A) (pre row : list A) :
+  length pre = n -> (n < length row)%nat ->
+  set_nth n v (pre ++ skipn n row) = (pre ++ [v]) ++ skipn (S n) row.
+Proof.
+  intros Hp Hn. rewrite (la_skipn_cons row n v Hn). subst n. rewrite la_set_nth_mid, <- app_assoc. reflexivity.
+Qed.
+
+Lemma la_set_nth_repeat {A : Type} (i : nat) (z v : A) (X : list A) :
+  set_nth i v (repeat z (S i) ++ X) = repeat z i ++ v :: X.
+Proof.
+  cbn [repeat]. rewrite repeat_cons, <- app_assoc. cbn [app].
+  rewrite <- (repeat_length z i) at 1. apply la_set_nth_mid.
+Qed.
+
+Lemma la_nth_repeat_mid {A : Type} (i : nat) (z x d : A) (X : list A) :
+  nth i (repeat z i ++ x :: X) d = x.
+Proof. rewrite <- (repeat_length z i) at 1. apply nth_middle. Qed.
+
+Lemma la_map_repeat {A B : Type} (f : A -> B) (x : A) (n : nat) : map f (repeat x n) = repeat (f x) n.
+Proof. induction n as [|n IH]; cbn [repeat map]; [reflexivity|]. rewrite IH. reflexivity. Qed.
+
+Lemma la_Forall_nth_len {A : Type} (K : nat) (l : list (list A)) (i : nat) :
+  Forall (fun r => length r = K) l -> (i < length l)%nat -> length (nth i l []) = K.
+Proof. intros H Hi. rewrite Forall_forall in H. apply H, nth_In, Hi. Qed.
+
+Lemma la_py_map2 {A B C : Type} (f : A -> B -> C) (l1 : list A) : forall l2, py_map2 f l1 l2 = map2 f l1 l2.
+Proof. reflexivity. Qed.
+
+Lemma la_total {A : Type} (f : A -> A -> A) (b : A) (l1 : list A) : forall l2,
+  map (fun a => f a b) (py_map2 f l1 l2) = map2 (fun x y => f (f x y) b) l1 l2.
+Proof. induction l1 as [|x l1 IH]; intros [|y l2]; cbn [py_map2 map2 map]; try reflexivity. now rewrite IH. Qed.
+
+Lemma la_map2_repeat {A B : Type} (f : A -> A -> B) (z : A) (l : list A) :
+  py_map2 f (repeat z (length l)) l = map (f z) l.
+Proof. induction l as [|x l IH]; cbn [length repeat py_map2 map]; [reflexivity|]. rewrite IH. reflexivity. Qed.
+
+Lemma la_bin_vv {A : Type} (f : A -> A -> A) (a b : list A) : length a = length b ->
+  np_bin_vv f a b = Ret (map2 f a b).
+Proof. intros H. unfold np_bin_vv. rewrite H, Nat.eqb_refl, la_py_map2. reflexivity. Qed.
+
+Lemma la_argmin_from {A : Type} (ltb : A -> A -> bool) (l : list A) : forall best bi i,
+  PyRt.argmin_from ltb best bi i l = Viterbi.argmin_from ltb best bi i l.
+Proof.
+  induction l as [|x l IH]; intros best bi i; cbn [PyRt.argmin_from Viterbi.argmin_from]; [reflexivity|].
+  rewrite !IH. reflexivity.
+Qed.
+
+Lemma la_argmin {A : Type} (ltb : A -> A -> bool) (l : list A) : l <> [] ->
+  np_argmin ltb l = Ret (Z.of_nat (argmin ltb l)).
+Proof. destruct l as [|x l]; [congruence|]. intros _. cbn [np_argmin argmin]. rewrite la_argmin_from. reflexivity. Qed.
+
+Lemma la_wrap (n : nat) : wrap_u16 (Z.of_nat n) = Z.of_nat (wrap16 n).
+Proof.
+  unfold wrap_u16, wrap16. rewrite N_nat_Z, N2Z.inj_mod, nat_N_Z. reflexivity.
+Qed.
+
+(* ---- 2-D arrays ---- *)
+Lemma la_row_nat {A : Type} (r k : Z) (cells : list (list A)) (i : nat) : (i < length cells)%nat ->
+  np_row (mk_arr2 r k cells) (Z.of_nat i) = Ret (nth i cells []).
+Proof. intros Hi. unfold np_row. cbn [a_cells]. apply la_getitem_nat, Hi. Qed.
+
+Lemma la_get2_nat {A : Type} (r k : Z) (cells : list (list A)) (i j : nat) (d : A) :
+  (i < length cells)%nat -> (j < length (nth i cells []))%nat ->
+  np_get2 (mk_arr2 r k cells) (Z.of_nat i) (Z.of_nat j) = Ret (nth j (nth i cells []) d).
+Proof.
+  intros Hi Hj. unfold np_get2. cbn [a_cells]. rewrite (la_getitem_nat _ _ [] Hi). cbn [bind].
+  apply la_getitem_nat, Hj.
+Qed.
+
+Lemma la_set2_nat {A : Type} (r k : Z) (cells : list (list A)) (i j : nat) (v : A) :
+  (i < length cells)%nat -> (j < length (nth i cells []))%nat ->
+  np_set2 (mk_arr2 r k cells) (Z.of_nat i) (Z.of_nat j) v
+  = Ret (mk_arr2 r k (set_nth i (set_nth j v (nth i cells [])) cells)).
+Proof.
+  intros Hi Hj. unfold np_set2. cbn [a_cells a_rows a_cols]. rewrite (la_getitem_nat _ _ [] Hi). cbn [bind].
+  rewrite (la_set_index_nat _ _ _ Hj). cbn [bind].
+  replace (Z.of_nat i <? 0)%Z with false by lia. rewrite Nat2Z.id. reflexivity.
+Qed.
+
+(* a loop that stores one computed value per column into row i of two arrays *)
+Lemma la_fill_row {A B : Type} (body : arr2 A * arr2 B -> Z -> res (arr2 A * arr2 B))
+      (ha : nat -> A) (hb : nat -> B) (i K : nat) (ra ka rb kb : Z) :
+  (forall c ca cb, (c < K)%nat -> (i < length ca)%nat -> (i < length cb)%nat ->
+      length (nth i ca []) = K -> length (nth i cb []) = K ->
+      body (mk_arr2 ra ka ca, mk_arr2 rb kb cb) (Z.of_nat c)
+      = Ret (mk_arr2 ra ka (set_nth i (set_nth c (ha c) (nth i ca [])) ca),
+             mk_arr2 rb kb (set_nth i (set_nth c (hb c) (nth i cb [])) cb))) ->
+  forall ca cb, (i < length ca)%nat -> (i < length cb)%nat ->
+    length (nth i ca []) = K -> length (nth i cb []) = K ->
+  forall n, (n <= K)%nat ->
+    foldM body (map Z.of_nat (seq 0 n)) (mk_arr2 ra ka ca, mk_arr2 rb kb cb)
+    = Ret (mk_arr2 ra ka (set_nth i (map ha (seq 0 n) ++ skipn n (nth i ca [])) ca),
+           mk_arr2 rb kb (set_nth i (map hb (seq 0 n) ++ skipn n (nth i cb [])) cb)).
+Proof.
+  intros Hbody ca cb Hia Hib Hra Hrb. induction n as [|n IH]; intros Hn.
+  - cbn [seq map foldM app skipn]. rewrite !la_set_nth_self. reflexivity.
+  - rewrite seq_S, map_app, foldM_app, IH by lia. cbn [bind Nat.add map foldM].
+    assert (Hla : length (map ha (seq 0 n) ++ skipn n (nth i ca [])) = K)
+      by (rewrite app_length, map_length, seq_length, skipn_length; lia).
+    assert (Hlb : length (map hb (seq 0 n) ++ skipn n (nth i cb [])) = K)
+      by (rewrite app_length, map_length, seq_length, skipn_length; lia).
+    rewrite Hbody; try (rewrite ?la_set_nth_length, ?la_nth_set_nth_same; solve [assumption | lia]).
+    cbn [bind]. rewrite !la_nth_set_nth_same by assumption. rewrite !la_set_nth_twice.
+    rewrite !la_set_nth_fill by (rewrite ?map_length, ?seq_length; lia).
+    rewrite !map_app. reflexivity.
+Qed.
+
+Lemma la_getitem_mid' {A : Type} (pre post : list A) (x : A) (k : nat) : length pre = k ->
+  py_getitem (pre ++ x :: post) (Z.of_nat k) = Ret x.
+Proof. intros <-. apply la_getitem_mid. Qed.
+
+Lemma la_set_index_mid' {A : Type} (pre post : list A) (x y : A) (k : nat) : length pre = k ->
+  py_set_index (pre ++ x :: post) (Z.of_nat k) y = Ret (pre ++ y :: post).
+Proof.
+  intros <-. rewrite la_set_index_nat by (rewrite app_length; cbn [length]; lia).
+  rewrite la_set_nth_mid. reflexivity.
+Qed.
+
+Lemma la_cons_app {A : Type} (pre : list A) (x : A) (l : list A) : pre ++ x :: l = (pre ++ [x]) ++ l.
+Proof. rewrite <- app_assoc. reflexivity. Qed.
+
+Lemma la_tl_skipn {A : Type} (l : list A) : forall i, tl (skipn i l) = skipn (S i) l.
+Proof.
+  induction l as [|x l IH]; intros [|i]; try reflexivity.
+  cbn [skipn]. rewrite IH. reflexivity.
+Qed.
+
+Lemma la_hd_skipn {A : Type} (d : A) (l : list A) : forall i, hd d (skipn i l) = nth i l d.
+Proof. induction l as [|x l IH]; intros [|i]; try reflexivity. cbn [skipn nth]. apply IH. Qed.
+
+Lemma la_Forall_repeat {A : Type} (P : A -> Prop) (x : A) (n : nat) : P x -> Forall P (repeat x n).
+Proof. intros H. induction n as [|n IH]; cbn [repeat]; constructor; assumption. Qed.
 
 Section E.
   Variable F : Type.
@@ -18,18 +218,308 @@ Section E.
   Definition model_result (K : nat) (rows : list (list F)) (betas : list F) : list Z * F :=
     let r := viterbi f0 fadd fsub fltb K rows betas in (map Z.of_nat (fst r), snd r).
 
-  (* STATEMENTS (to be proved):
+  (* ---- the three loop bodies of the generated text, named ---- *)
+  Definition inner_body (label_switching_cost total_vals : list F) (arg_general_min i : Z)
+    : arr2 Z * arr2 F -> Z -> res (arr2 Z * arr2 F) :=
+    (fun '(path_matrix, future_cost_vals) cluster =>
+    t10_ <- py_getitem total_vals arg_general_min ;;
+    t11_ <- py_getitem total_vals cluster ;;
+    t12_ <- py_getitem label_switching_cost i ;;
+    '(path_matrix, future_cost_vals) <- (if (fltb t10_ (fsub t11_ t12_)) then
+    path_matrix <- np_set2 path_matrix i cluster (wrap_u16 arg_general_min) ;;
+    t13_ <- py_getitem total_vals arg_general_min ;;
+    future_cost_vals <- np_set2 future_cost_vals i cluster t13_ ;;
+    Ret (path_matrix, future_cost_vals)
+    else
+    path_matrix <- np_set2 path_matrix i cluster (wrap_u16 cluster) ;;
+    t14_ <- py_getitem total_vals cluster ;;
+    t15_ <- py_getitem label_switching_cost i ;;
+    future_cost_vals <- np_set2 future_cost_vals i cluster (fsub t14_ t15_) ;;
+    Ret (path_matrix, future_cost_vals)) ;;
+    Ret (path_matrix, future_cost_vals)).
+
+  Definition outer_body (label_assignment_cost : arr2 F) (label_switching_cost : list F)
+    : arr2 Z * arr2 F -> Z -> res (arr2 Z * arr2 F) :=
+    (fun '(path_matrix, future_cost_vals) i =>
+    t5_ <- np_row future_cost_vals (i + (1)) ;;
+    t6_ <- np_row label_assignment_cost (i + (1)) ;;
+    t7_ <- np_bin_vv fadd t5_ t6_ ;;
+    t8_ <- py_getitem label_switching_cost i ;;
+    let total_vals := (map (fun a_ => fadd a_ t8_) t7_) in
+    t9_ <- np_argmin fltb total_vals ;;
+    let arg_general_min := t9_ in
+    '(path_matrix, future_cost_vals) <-
+       foldM (inner_body label_switching_cost total_vals arg_general_min i)
+             (zrange (a_cols label_assignment_cost)) (path_matrix, future_cost_vals) ;;
+    Ret (path_matrix, future_cost_vals))%Z.
+
+  Definition read_body (path_matrix : arr2 Z) : list Z -> Z -> res (list Z) :=
+    (fun path i =>
+    t24_ <- py_getitem path i ;;
+    t25_ <- np_get2 path_matrix i t24_ ;;
+    path <- py_set_index path (i + (1)) t25_ ;;
+    Ret path)%Z.
+
+  Lemma g_unfold (label_assignment_cost : arr2 F) (nd_cost : nd F) :
+    g_assign_point_cluster_labels F f0 fadd fsub fltb label_assignment_cost nd_cost =
+    (let num_points := (a_rows label_assignment_cost) in
+    let num_clusters := (a_cols label_assignment_cost) in
+    t1_ <- np_zeros2 f0 (a_rows label_assignment_cost) (a_cols label_assignment_cost) ;;
+    let future_cost_vals := t1_ in
+    t2_ <- np_zeros2 0 (a_rows label_assignment_cost) (a_cols label_assignment_cost) ;;
+    let path_matrix := t2_ in
+    t3_ <- np_full1 f0 num_points ;;
+    t4_ <- np_bin_vnd fadd t3_ nd_cost ;;
+    let label_switching_cost := t4_ in
+    '(path_matrix, future_cost_vals) <-
+       foldM (outer_body label_assignment_cost label_switching_cost)
+             (zrange_down (num_points - (2)) (- (1))) (path_matrix, future_cost_vals) ;;
+    let path := (py_list_repeat (- (1)) num_points) in
+    t16_ <- np_row future_cost_vals (0) ;;
+    t17_ <- np_row label_assignment_cost (0) ;;
+    t18_ <- np_bin_vv fadd t16_ t17_ ;;
+    t19_ <- np_argmin fltb t18_ ;;
+    let curr_location := t19_ in
+    path <- py_set_index path (0) curr_location ;;
+    t20_ <- py_getitem path (0) ;;
+    t21_ <- np_get2 future_cost_vals (0) t20_ ;;
+    t22_ <- py_getitem path (0) ;;
+    t23_ <- np_get2 label_assignment_cost (0) t22_ ;;
+    let true_cost := (fadd t21_ t23_) in
+    path <- foldM (read_body path_matrix) (zrange (num_points - (1))) path ;;
+    Ret (path, true_cost))%Z.
+  Proof. reflexivity. Qed.
+
+  Notation stepv := (Viterbi.stepv f0 fsub fltb).
+  Notation step := (Viterbi.step f0 fadd fsub fltb).
+  Notation bw := (Viterbi.bw f0 fadd fsub fltb).
+
+  Lemma inner_step (lsc total : list F) (g i c : nat) (ra ka rb kb : Z) (cz : list (list Z)) (cf : list (list F)) :
+    (i < length lsc)%nat -> (g < length total)%nat -> (c < length total)%nat ->
+    (i < length cz)%nat -> (i < length cf)%nat ->
+    (c < length (nth i cz []))%nat -> (c < length (nth i cf []))%nat ->
+    inner_body lsc total (Z.of_nat g) (Z.of_nat i) (mk_arr2 ra ka cz, mk_arr2 rb kb cf) (Z.of_nat c)
+    = Ret (mk_arr2 ra ka (set_nth i (set_nth c (Z.of_nat (snd (stepv (nth i lsc f0) total g c))) (nth i cz [])) cz),
+           mk_arr2 rb kb (set_nth i (set_nth c (fst (stepv (nth i lsc f0) total g c)) (nth i cf [])) cf)).
+  Proof.
+    intros Hi Hg Hc Hiz Hif Hcz Hcf. unfold inner_body, Viterbi.stepv.
+    rewrite (la_getitem_nat total g f0 Hg), (la_getitem_nat total c f0 Hc), (la_getitem_nat lsc i f0 Hi).
+    cbn [bind].
+    destruct (fltb (nth g total f0) (fsub (nth c total f0) (nth i lsc f0))); cbn [fst snd].
+    - rewrite (la_set2_nat _ _ cz i c _ Hiz Hcz). cbn [bind].
+      rewrite (la_set2_nat _ _ cf i c _ Hif Hcf). cbn [bind]. rewrite la_wrap. reflexivity.
+    - rewrite (la_set2_nat _ _ cz i c _ Hiz Hcz). cbn [bind].
+      rewrite (la_set2_nat _ _ cf i c _ Hif Hcf). cbn [bind]. rewrite la_wrap. reflexivity.
+  Qed.
+
+  Lemma outer_step (T K : nat) (rows : list (list F)) (bs : list F) (i : nat)
+        (cz : list (list Z)) (cf : list (list F)) :
+    (1 <= K)%nat -> wf_table T K rows -> length bs = T -> (S i < T)%nat ->
+    length cz = T -> length cf = T ->
+    Forall (fun r => length r = K) cz -> Forall (fun r => length r = K) cf ->
+    outer_body (mk_arr2 (Z.of_nat T) (Z.of_nat K) rows) bs
+      (mk_arr2 (Z.of_nat T) (Z.of_nat K) cz, mk_arr2 (Z.of_nat T) (Z.of_nat K) cf) (Z.of_nat i)
+    = Ret (mk_arr2 (Z.of_nat T) (Z.of_nat K)
+             (set_nth i (map Z.of_nat (snd (step (nth i bs f0) (nth (S i) cf []) (nth (S i) rows [])))) cz),
+           mk_arr2 (Z.of_nat T) (Z.of_nat K)
+             (set_nth i (fst (step (nth i bs f0) (nth (S i) cf []) (nth (S i) rows []))) cf)).
+  Proof.
+    intros HK [Hlr Hwr] Hlb Hi Hlz Hlf Hwz Hwf. unfold outer_body.
+    replace (Z.of_nat i + 1)%Z with (Z.of_nat (S i)) by lia.
+    rewrite (la_row_nat _ _ cf (S i)) by lia. cbn [bind].
+    rewrite (la_row_nat _ _ rows (S i)) by lia. cbn [bind].
+    assert (Hfr : length (nth (S i) cf []) = K) by (apply la_Forall_nth_len; [assumption|lia]).
+    assert (Hcr : length (nth (S i) rows []) = K) by (apply la_Forall_nth_len; [assumption|lia]).
+    unfold np_bin_vv. rewrite Hfr, Hcr, Nat.eqb_refl. cbn [bind].
+    rewrite (la_getitem_nat bs i f0) by lia. cbn [bind].
+    rewrite la_total. unfold Viterbi.step.
+    set (total := map2 (fun x y => fadd (fadd x y) (nth i bs f0)) (nth (S i) cf []) (nth (S i) rows [])).
+    assert (Hlt : length total = K) by (unfold total; rewrite map2_length; lia).
+    assert (Hne : total <> []) by (intros E; rewrite E in Hlt; cbn in Hlt; lia).
+    rewrite (la_argmin fltb total Hne). cbn [bind a_cols].
+    pose proof (argmin_range fltb total Hne) as Hg. set (g := argmin fltb total) in *.
+    rewrite zrange_of_nat.
+    rewrite (la_fill_row (inner_body bs total (Z.of_nat g) (Z.of_nat i))
+               (fun c => Z.of_nat (snd (stepv (nth i bs f0) total g c)))
+               (fun c => fst (stepv (nth i bs f0) total g c)) i K).
+    - cbn [bind].
+      rewrite !skipn_all2 by (rewrite la_Forall_nth_len with (K := K); [lia|assumption|lia]).
+      rewrite !app_nil_r, Hlt, split_map_fst, split_map_snd, map_map. reflexivity.
+    - intros c ca cb Hc Hia Hib Hra Hrb. apply inner_step; lia.
+    - lia.
+    - lia.
+    - apply la_Forall_nth_len; [assumption|lia].
+    - apply la_Forall_nth_len; [assumption|lia].
+    - lia.
+  Qed.
+
+  (* ---- the backward loop ---- *)
+  Lemma bw_cons2 (K : nat) (r r' : list F) (rest : list (list F)) (bs : list F) :
+    bw K (r :: r' :: rest) bs
+    = (let '(f', P) := bw K (r' :: rest) (tl bs) in
+       let '(f, p) := step (hd f0 bs) f' r' in (f, p :: P)).
+  Proof. reflexivity. Qed.
+
+  Lemma bw_skipn (K : nat) (rows : list (list F)) (bs : list F) (i : nat) : (S i < length rows)%nat ->
+    bw K (skipn i rows) (skipn i bs)
+    = (let '(f', P) := bw K (skipn (S i) rows) (skipn (S i) bs) in
+       let '(f, p) := step (nth i bs f0) f' (nth (S i) rows []) in (f, p :: P)).
+  Proof.
+    intros Hi.
+    rewrite (la_skipn_cons rows i [] ltac:(lia)), (la_skipn_cons rows (S i) [] Hi), bw_cons2.
+    rewrite la_tl_skipn, la_hd_skipn. reflexivity.
+  Qed.
+
+  Definition shapeP (K : nat) (P : list (list nat)) : Prop :=
+    Forall (fun p => length p = K /\ Forall (fun c => (c < K)%nat) p) P.
+
+  Lemma shapeP_len (K : nat) (P : list (list nat)) : shapeP K P ->
+    Forall (fun r => length r = K) (map (map Z.of_nat) P).
+  Proof.
+    induction 1 as [|p P [Hp _] _ IH]; cbn [map]; constructor; [rewrite map_length; exact Hp | exact IH].
+  Qed.
+
+  Lemma outer_loop (T K : nat) (rows : list (list F)) (bs : list F) :
+    (1 <= T)%nat -> (1 <= K)%nat -> wf_table T K rows -> length bs = T ->
+    forall j i0 : nat, (i0 + j = T - 1)%nat ->
+    exists (f : list F) (P : list (list nat)) (FS : list (list F)),
+      foldM (outer_body (mk_arr2 (Z.of_nat T) (Z.of_nat K) rows) bs)
+            (map (fun k => (Z.of_nat T - 2 - Z.of_nat k)%Z) (seq 0 j))
+            (mk_arr2 (Z.of_nat T) (Z.of_nat K) (repeat (repeat 0%Z K) T),
+             mk_arr2 (Z.of_nat T) (Z.of_nat K) (repeat (repeat f0 K) T))
+      = Ret (mk_arr2 (Z.of_nat T) (Z.of_nat K) (repeat (repeat 0%Z K) i0 ++ map (map Z.of_nat) P ++ [repeat 0%Z K]),
+             mk_arr2 (Z.of_nat T) (Z.of_nat K) (repeat (repeat f0 K) i0 ++ f :: FS))
+      /\ bw K (skipn i0 rows) (skipn i0 bs) = (f, P)
+      /\ length f = K /\ length P = j /\ shapeP K P
+      /\ length FS = j /\ Forall (fun r => length r = K) FS.
+  Proof.
+    intros HT HK Hwf Hlb. pose proof Hwf as [Hlr Hwr].
+    induction j as [|j IH]; intros i0 Hij.
+    - exists (repeat f0 K), [], []. cbn [seq map foldM app length].
+      assert (HR : forall (A : Type) (z : A), repeat z T = repeat z i0 ++ [z])
+        by (intros A z; replace T with (i0 + 1)%nat by lia; apply repeat_app).
+      rewrite !HR.
+      rewrite (la_skipn_cons rows i0 [] ltac:(lia)), (skipn_all2 (n := S i0)) by lia.
+      cbn [Viterbi.bw]. rewrite repeat_length.
+      repeat split; constructor.
+    - destruct (IH (S i0) ltac:(lia)) as (f' & P' & FS & Heq & Hbw & Hlf' & HlP' & HP' & HlFS & HwFS).
+      rewrite (bw_skipn K rows bs i0) by lia. rewrite Hbw.
+      destruct (step (nth i0 bs f0) f' (nth (S i0) rows [])) as [f p] eqn:Es.
+      assert (Hcr : length (nth (S i0) rows []) = K) by (apply la_Forall_nth_len; [assumption|lia]).
+      destruct (step_shape f0 fadd fsub fltb K _ _ _ _ _ ltac:(lia) Hlf' Hcr Es) as [Hlf [Hlp Hp]].
+      exists f, (p :: P'), (f' :: FS).
+      split; [|repeat split; cbn [length]; try lia; constructor; try assumption; split; assumption].
+      rewrite seq_S, map_app, foldM_app, Heq. cbn [bind Nat.add map foldM].
+      replace (Z.of_nat T - 2 - Z.of_nat j)%Z with (Z.of_nat i0) by lia.
+      pose proof (shapeP_len K P' HP') as HwP'.
+      rewrite (outer_step T K rows bs i0); try assumption; try lia.
+      + cbn [bind]. rewrite (la_nth_repeat_mid (S i0)), Es. cbn [fst snd].
+        rewrite !la_set_nth_repeat. reflexivity.
+      + rewrite !app_length, repeat_length, map_length. cbn [length]. lia.
+      + rewrite app_length, repeat_length. cbn [length]. lia.
+      + apply Forall_app; split; [apply la_Forall_repeat, repeat_length|].
+        apply Forall_app; split; [exact HwP'|]. constructor; [apply repeat_length|constructor].
+      + apply Forall_app; split; [apply la_Forall_repeat, repeat_length|]. constructor; assumption.
+  Qed.
+
+  (* ---- the read-out loop ---- *)
+  Lemma read_loop (K : nat) (ra ka : Z) (tailZ : list (list Z)) :
+    forall (P : list (list nat)) (n a : nat) (PRE : list (list Z)) (pre : list Z) (c : nat),
+    length P = n -> length PRE = a -> length pre = a -> shapeP K P -> (c < K)%nat ->
+    foldM (read_body (mk_arr2 ra ka (PRE ++ map (map Z.of_nat) P ++ tailZ)))
+          (map Z.of_nat (seq a n)) (pre ++ Z.of_nat c :: repeat (-1)%Z n)
+    = Ret (pre ++ map Z.of_nat (c :: follow c P)).
+  Proof.
+    induction P as [|p P IH]; intros n a PRE pre c Hn HPRE Hpre HP Hc; cbn [length] in Hn; subst n.
+    - reflexivity.
+    - pose proof (Forall_inv HP) as [Hlp Hpc]. pose proof (Forall_inv_tail HP) as HP'.
+      assert (Hc' : (nth c p 0 < K)%nat) by (rewrite Forall_forall in Hpc; apply Hpc, nth_In; lia).
+      cbn [seq map foldM repeat follow app]. unfold read_body at 1.
+      rewrite (la_getitem_mid' pre _ _ a Hpre). cbn [bind].
+      unfold np_get2. cbn [a_cells]. rewrite (la_getitem_mid' PRE _ _ a HPRE). cbn [bind].
+      rewrite (la_getitem_nat _ c (Z.of_nat 0)) by (rewrite map_length; lia). cbn [bind].
+      rewrite map_nth.
+      replace (Z.of_nat a + 1)%Z with (Z.of_nat (S a)) by lia.
+      rewrite (la_cons_app pre).
+      rewrite (la_set_index_mid' (pre ++ [Z.of_nat c]) _ _ _ (S a)) by (rewrite app_length; cbn [length]; lia).
+      cbn [bind].
+      rewrite (la_cons_app PRE).
+      rewrite (IH (length P) (S a) (PRE ++ [map Z.of_nat p]) (pre ++ [Z.of_nat c]) (nth c p 0));
+        try assumption; try reflexivity; try (rewrite app_length; cbn [length]; lia).
+      rewrite <- app_assoc. reflexivity.
+  Qed.
+
+  (* ---- the whole kernel, for any broadcast switching-cost vector ---- *)
+  Lemma g_core (T K : nat) (rows : list (list F)) (ndc : nd F) (bs : list F) :
+    (1 <= T)%nat -> (1 <= K)%nat -> wf_table T K rows -> length bs = T ->
+    np_bin_vnd fadd (repeat f0 T) ndc = Ret bs ->
+    g_assign_point_cluster_labels F f0 fadd fsub fltb (mk_arr2 (Z.of_nat T) (Z.of_nat K) rows) ndc
+    = Ret (let '(f, P) := bw K rows bs in
+           let row0 := hd [] rows in
+           let p0 := argmin fltb (map2 fadd f row0) in
+           (map Z.of_nat (p0 :: follow p0 P), fadd (nth p0 f f0) (nth p0 row0 f0))).
+  Proof.
+    intros HT HK Hwf Hlb Hnd. pose proof Hwf as [Hlr Hwr].
+    rewrite g_unfold. cbn [a_rows a_cols].
+    unfold np_zeros2. replace ((Z.of_nat T <? 0)%Z || (Z.of_nat K <? 0)%Z) with false by lia.
+    cbn [bind]. unfold np_full1. replace (Z.of_nat T <? 0)%Z with false by lia.
+    rewrite !Nat2Z.id. cbn [bind]. rewrite Hnd. cbn [bind].
+    unfold zrange_down. replace (Z.to_nat (Z.of_nat T - 2 - - (1))) with (T - 1)%nat by lia.
+    destruct (outer_loop T K rows bs HT HK Hwf Hlb (T - 1) 0 ltac:(lia))
+      as (f & P & FS & Heq & Hbw & Hlf & HlP & HP & HlFS & HwFS).
+    rewrite Heq. cbn [bind repeat app]. cbn [skipn] in Hbw. rewrite Hbw.
+    destruct rows as [|r0 rest]; [cbn [length] in Hlr; lia|]. cbn [hd].
+    pose proof (Forall_inv Hwr) as Hlr0. cbv beta in Hlr0.
+    rewrite (la_row_nat _ _ (f :: FS) 0) by (cbn [length]; lia). cbn [bind nth].
+    rewrite (la_row_nat _ _ (r0 :: rest) 0) by (cbn [length]; lia). cbn [bind nth].
+    rewrite la_bin_vv by lia. cbn [bind].
+    set (v0 := map2 fadd f r0).
+    assert (Hlv : length v0 = K) by (unfold v0; rewrite map2_length; lia).
+    assert (Hne : v0 <> []) by (intros E; rewrite E in Hlv; cbn in Hlv; lia).
+    rewrite (la_argmin fltb v0 Hne). cbn [bind].
+    pose proof (argmin_range fltb v0 Hne) as Hp0. set (p0 := argmin fltb v0) in *.
+    unfold py_list_repeat. rewrite Nat2Z.id.
+    destruct T as [|T']; [lia|]. cbn [repeat].
+    rewrite (la_set_index_nat _ 0) by (cbn [length]; lia). cbn [bind set_nth].
+    rewrite (la_getitem_nat _ 0 0%Z) by (cbn [length]; lia). cbn [bind nth].
+    rewrite (la_get2_nat _ _ (f :: FS) 0 p0 f0) by (cbn [length nth]; lia). cbn [bind nth].
+    rewrite (la_get2_nat _ _ (r0 :: rest) 0 p0 f0) by (cbn [length nth]; lia). cbn [bind nth].
+    replace (Z.of_nat (S T') - 1)%Z with (Z.of_nat T') by lia. rewrite zrange_of_nat.
+    pose proof (read_loop K (Z.of_nat (S T')) (Z.of_nat K) [repeat 0%Z K] P T' 0 [] [] p0
+                  ltac:(lia) eq_refl eq_refl HP ltac:(lia)) as HR.
+    cbn [app] in HR. change (- (1))%Z with (-1)%Z. rewrite HR. cbn [bind]. reflexivity.
+  Qed.
+
   Theorem g_assign_vec_eq (T K : nat) (rows : list (list F)) (betas : list F) :
     (1 <= T)%nat -> (1 <= K)%nat -> wf_table T K rows -> length betas = T ->
     g_assign_point_cluster_labels F f0 fadd fsub fltb (mk_arr2 (Z.of_nat T) (Z.of_nat K) rows) (NdVec betas)
     = Ret (model_result K rows betas).
+  Proof.
+    intros HT HK Hwf Hlb.
+    rewrite (g_core T K rows (NdVec betas) (map (fadd f0) betas) HT HK Hwf).
+    - unfold model_result, viterbi, broadcast.
+      destruct (Viterbi.bw f0 fadd fsub fltb K rows (map (fadd f0) betas)) as [f P]. reflexivity.
+    - rewrite map_length. exact Hlb.
+    - cbn [np_bin_vnd]. unfold np_bin_vv. rewrite repeat_length, Hlb, Nat.eqb_refl.
+      rewrite <- Hlb, la_map2_repeat. reflexivity.
+  Qed.
 
   Theorem g_assign_scalar_eq (T K : nat) (rows : list (list F)) (beta : F) :
     (1 <= T)%nat -> (1 <= K)%nat -> wf_table T K rows ->
     g_assign_point_cluster_labels F f0 fadd fsub fltb (mk_arr2 (Z.of_nat T) (Z.of_nat K) rows) (NdScalar beta)
     = Ret (let r := viterbi_scalar f0 fadd fsub fltb K rows beta in (map Z.of_nat (fst r), snd r)).
-  *)
+  Proof.
+    intros HT HK Hwf. pose proof Hwf as [Hlr _].
+    rewrite (g_core T K rows (NdScalar beta) (repeat (fadd f0 beta) T) HT HK Hwf).
+    - unfold viterbi_scalar, viterbi, broadcast. rewrite la_map_repeat, Hlr.
+      destruct (Viterbi.bw f0 fadd fsub fltb K rows (repeat (fadd f0 beta) T)) as [f P]. reflexivity.
+    - apply repeat_length.
+    - cbn [np_bin_vnd]. rewrite la_map_repeat. reflexivity.
+  Qed.
 End E.
+
+Print Assumptions g_assign_vec_eq.
+Print Assumptions g_assign_scalar_eq.
 
 (* sanity: both sides computed on an integer carrier *)
 Definition tbl : list (list Z) := [[5;1;7];[2;9;4];[6;3;1];[1;8;2];[4;4;9]]%Z.
